@@ -42,6 +42,7 @@ import threading
 from circuits import BaseComponent, Event, handler
 from circuits.core.events import generate_events
 from circuits.core.manager import TimeoutError as CTimeoutError    # circuits' own class, not the builtin
+from circuits.core.manager import Manager as MANAGER
 
 ID = 'C05'
 LEVEL = 'exploration'
@@ -87,7 +88,7 @@ ASSUMPTIONS = [
     'an event without any handler is "dispatched to all its handlers" as soon as it has been popped; that moment is not observable, so '
     'it counts as done when the queue pass that contains it has ended, and at the fire time of a `_complete` already while that pass runs',
 ]
-PROBES = ['complete-fired', 'complete-fired-from-task-phase', 'nested-complete', 'roots-in-flight>=2', 'complete-channels',
+PROBES = ['handler-calls-flush', 'tracked-handler-calls-flush', 'complete-fired', 'complete-fired-from-task-phase', 'nested-complete', 'roots-in-flight>=2', 'complete-channels',
           'tracked-gen-step-fire', 'tracked-cancel', 'tracked-stop', 'tracked-raise-plain', 'tracked-raise-gen',
           'two-generators-one-event', 'unregister-root', 'harness-cancel-tracked', 'tracked-handlerless', 'tracked-deaf-channel',
           'tracked-unhandled-name', 'tracked-call', 'tracked-sequential-call', 'tracked-wait', 'tracked-call-handlerless',
@@ -101,6 +102,7 @@ K_CANCEL = 'C05/never-completes/cancelled-descendant'
 K_GENRAISE = 'C05/never-completes/raising-generator-handler'
 K_GENSTEP = 'C05/early-complete/fired-from-generator-step'
 K_BOTH = 'C05/never-completes/cancelled-descendant+raising-generator-handler'
+K_NESTED_FLUSH = 'C05/early-complete/fired-after-nested-flush'
 F_CANCEL, F_GENRAISE, F_NOH = 'cancelled-descendant', 'raising-generator-handler', 'handlerless-descendant'
 F_STOP, F_RAISE, F_NESTED = 'stopped-event', 'raising-plain-handler', 'nested-requester'
 KINDS = (F_CANCEL, F_GENRAISE, F_NOH, F_STOP, F_RAISE, F_NESTED)     # what a closure can contain besides plainly handled events
@@ -277,6 +279,27 @@ def _run(ctx, mute):
                               'prepare_unregister' if is_unreg else None))
     BOUND = 4 * st['gen_steps'] + 6 * st['calls'] + maxdepth + 10
 
+    # a plain handler may call self.flush() between its fires (flush() is re-entrant by design): what it fires afterwards is still fired "while
+    # handling" its event.  Only in programs without handler-less events (the harness learns about their dispatch from its own flush marker,
+    # which a nested flush would not trigger), drawn after the trees so that the rest of the tape keeps its meaning.
+    def _all_nodes(n, acc):
+        acc.append(n)
+        for sl in slots:
+            for acts in n.specs.get(sl['idx'], ()):
+                for a in acts:
+                    if a[0] in FIRES:
+                        _all_nodes(a[1], acc)
+        return acc
+    _nodes = [x for r in roots for x in _all_nodes(r, [])]
+    if K_NESTED_FLUSH not in ctx.avoid and all(x.nslots > 0 for x in _nodes) and ch.chance(1, 3, 'nested-flush'):
+        for x in _nodes:
+            for sl in slots:
+                if sl['gen']:
+                    continue
+                for acts in x.specs.get(sl['idx'], ()):
+                    if any(a[0] == 'fire' for a in acts) and ch.chance(1, 2, 'flush-here'):
+                        acts.insert(ch.draw(len(acts) + 1, 'flush-pos'), ('flush',))
+
     def strip(n, above=False):
         """attribution re-run (see run_one): leave the muted kinds out of the program"""
         if F_NESTED in mute and above:          # a requester inside the closure of another one
@@ -350,6 +373,8 @@ def _run(ctx, mute):
         g.eid, g.node, g.ev, g.parent, g.via_gen = st['eid'], node, ev, parent, via_gen
         g.kids, g.state, g.ran, g.stopped, g.open, g.gen_raised, g.plain_raised = [], 'pending', set(), False, 0, False, False
         g.cfired, g.drained_at, g.nslots = 0, None, node.nslots
+        if parent in st.get('flushed_in', ()):
+            st.setdefault('after_flush', set()).add(g.eid)      # fired by a handler that had called flush() before
         g.pass_ = st['passes'] + 1        # the earliest (and, for a correct queue, the) pass that pops it: the next one to begin
         if not g.nslots:
             pend0.append(g)
@@ -420,6 +445,14 @@ def _run(ctx, mute):
             c = do_fire(comp, act[1], g.eid, True, '      ')
             ctx.trace('      yield wait(%s%s)' % ('e%d' % c.eid if act[0] == 'waitobj' else repr(act[1].name), ', timeout=%d' % act[2] if kw else ''))
             return comp.wait(c.ev if act[0] == 'waitobj' else act[1].name, **kw)
+        if act[0] == 'flush':
+            ctx.stat('handler-calls-flush')
+            if tr:
+                ctx.stat('tracked-handler-calls-flush')
+            ctx.trace('      self.flush()')
+            st.setdefault('flushed_in', set()).add(g.eid)
+            MANAGER.flushEvents(comp)       # the plain method: the harness's pass marker is for the passes the harness starts
+            return None
         if act[0] == 'stop':
             event.stop()
             g.stopped = True
@@ -459,6 +492,13 @@ def _run(ctx, mute):
             direct = [g for g in bad if not gen_edge_between(g, x)]
             g = (direct or bad)[0]
             key = 'C05/early-complete/' + (describe(g) if direct else 'fired-from-generator-step')
+            af = st.get('after_flush', ())
+            t = g
+            while t is not None and t.eid != x:
+                if t.eid in af:
+                    key = K_NESTED_FLUSH        # the member (or an ancestor of it inside the closure) was fired after its handler's flush()
+                    break
+                t = G.get(t.parent)
             ctx.violation(key, '%s_complete for e%d fired while e%d (%s, %s) of its closure is %s; undrained closure members: %r' % (
                 gx.node.name, x, g.eid, g.node.name, 'below a generator-step fire' if not direct else 'reached through plain handlers only',
                 describe(g), [b.eid for b in bad]))
@@ -609,6 +649,7 @@ def _run(ctx, mute):
                 return body(self, event, g, steps)
             ctx.trace('    h%d(prio %r) <- e%d' % (idx, s['prio'], eid))
             st['in_h'] += 1
+            outer_h = st['cur_h']
             st['cur_h'] = eid
             try:
                 for act in steps[0]:
@@ -621,6 +662,7 @@ def _run(ctx, mute):
                 raise
             finally:
                 st['in_h'] -= 1
+                st['cur_h'] = outer_h       # a handler that runs inside another handler's flush(): the outer one goes on afterwards
             return None
         h.__name__ = 'h%d' % idx
         return handler(*s['names'], priority=s['prio'])(h)
